@@ -13,6 +13,7 @@ import (
 	"database/sql"
 	"encoding/json"
 	"os"
+	"runtime"
 	"sync"
 	"sync/atomic"
 	"testing"
@@ -82,10 +83,29 @@ type verifMgrCase struct {
 	Items []verifItem `json:"items"`
 }
 
+// verifFirst: Trials times, G goroutines released together each issue ONE whole request for a
+// token that has no limiter / tracker yet (limit Lim per minute, per hour and as hourly/daily
+// quota), at one clock value.  Whatever the interleaving, exactly min(G, Lim) may pass each check.
+type verifFirst struct {
+	Trials int   `json:"trials"`
+	G      int   `json:"g"`
+	Lim    int   `json:"lim"`
+	T      int64 `json:"t"`
+	Procs  int   `json:"procs"`
+	MaxRA  int64 `json:"max_ra"`
+	MaxQA  int64 `json:"max_qa"`
+	MinRA  int64 `json:"min_ra"`
+	MinQA  int64 `json:"min_qa"`
+	Exceed int   `json:"exceed"` // trials in which more than Lim passed a check
+	// [trial, rate-allowed, quota-allowed, raw hour count, raw day count] of the worst trial
+	Worst []int64 `json:"worst"`
+}
+
 type verifCases struct {
-	Sw  []verifSwCase  `json:"sw"`
-	Qt  []verifQtCase  `json:"qt"`
-	Mgr []verifMgrCase `json:"mgr"`
+	Sw    []verifSwCase  `json:"sw"`
+	Qt    []verifQtCase  `json:"qt"`
+	Mgr   []verifMgrCase `json:"mgr"`
+	First []verifFirst   `json:"first"`
 	// geometry the Manager actually gives its two limiters (read back from live objects)
 	MinGeom []int64 `json:"min_geom,omitempty"`
 	HrGeom  []int64 `json:"hr_geom,omitempty"`
@@ -278,6 +298,67 @@ func TestVerifGovern(t *testing.T) {
 			}
 			it.Raw = verifRaw(m, it.Tok)
 		}
+	}
+
+	for fi := range cs.First {
+		f := &cs.First[fi]
+		if runtime.GOMAXPROCS(0) < 2 {
+			runtime.GOMAXPROCS(4)
+		}
+		f.Procs = runtime.GOMAXPROCS(0)
+		verifClockNS.Store(f.T)
+		m := verifManager(t, verifPolicy{Min: f.Lim, Hr: f.Lim, QH: f.Lim, QD: f.Lim})
+		var cur, ra, qa atomic.Int64
+		var done sync.WaitGroup
+		var exit sync.WaitGroup
+		for w := 0; w < f.G; w++ {
+			exit.Add(1)
+			go func() {
+				defer exit.Done()
+				for trial := int64(1); trial <= int64(f.Trials); trial++ {
+					for cur.Load() != trial { // spin barrier: all workers start a trial together
+						runtime.Gosched()
+					}
+					tok := 1000 + trial
+					if r := m.CheckRateLimit(tok); r.Allowed {
+						ra.Add(1)
+						if q := m.CheckQuota(tok); q.Allowed {
+							qa.Add(1)
+						}
+					}
+					done.Done()
+				}
+			}()
+		}
+		f.MinRA, f.MinQA = int64(f.G), int64(f.G)
+		for trial := int64(1); trial <= int64(f.Trials); trial++ {
+			ra.Store(0)
+			qa.Store(0)
+			done.Add(f.G)
+			cur.Store(trial)
+			done.Wait()
+			a, b := ra.Load(), qa.Load()
+			if a > int64(f.Lim) || b > int64(f.Lim) {
+				f.Exceed++
+			}
+			if a < f.MinRA {
+				f.MinRA = a
+			}
+			if b < f.MinQA {
+				f.MinQA = b
+			}
+			if f.Worst == nil || a+b > f.Worst[1]+f.Worst[2] {
+				raw := verifRaw(m, 1000+trial)
+				f.Worst = []int64{trial, a, b, raw[0], raw[1]}
+			}
+			if a > f.MaxRA {
+				f.MaxRA = a
+			}
+			if b > f.MaxQA {
+				f.MaxQA = b
+			}
+		}
+		exit.Wait()
 	}
 
 	// geometry of the limiters the Manager really constructs (cross-check of Params_Govern)
